@@ -464,7 +464,7 @@ class Model:
         self.tracers.pop()
         pred.trig.add('tracer_pop')
 
-    def op_rep(self, pred, tag, arity):
+    def op_rep(self, pred, tag, arity, form=0):
         if arity == 1:
             pred.probe = (self.rep, None)
             self.rep = tag
